@@ -60,12 +60,20 @@ def main(argv=None):
             print("HARNESS-ERROR engine micro-suite: %s %s %s" % (r["qid"], r["verdict"], r.get("cex") or r.get("error")))
         # still write evidence so that the run is documented, but never report success
     native = None
+    native_crash = None
     if plan.get("native") is not None:
-        native = plan["native"]()
+        try:
+            native = plan["native"]()
+        except Exception:  # noqa  -- an exception the native part did not expect: never a success, never a silent exit
+            import traceback
+            native_crash = traceback.format_exc()
+            native = dict(count=0, failures=[], samples=[])
     rc = report.finish(args.prop, args.tier, seed, qres, queries, t0,
                        extra_assumptions=plan.get("assumptions", ()), outside_claim=plan.get("outside_claim", ()),
                        native_checks=native, exhaustive=plan.get("exhaustive", True) and not args.only)
-    if bad_engine and rc == 0:
+    if native_crash is not None:
+        print("HARNESS-ERROR native part raised an exception it does not handle:\n%s" % native_crash)
+    if (bad_engine or native_crash is not None) and rc == 0:
         rc = report.EXIT_HARNESS
     return rc
 
